@@ -76,6 +76,9 @@ pub struct Synth {
 	/// the error handler keeps the hooks of the errors it does not elevate alive until the end of the run (moved out of
 	/// the handler): a later elevation through a fresh hook must still end the main task
 	pub retain_hooks: bool,
+	/// busy threads beside the runtime for the duration of the scenario: forces pre-emption at arbitrary points of the
+	/// workers (races a few instructions wide are only seen when a thread loses the CPU inside them)
+	pub spinners: usize,
 	pub filter_delay_us: u64,
 	/// after the producers finished: stream rejected (or erroring) events until every expected event was delivered
 	pub starve_with: Option<Verdict>,
@@ -207,9 +210,24 @@ struct Shared {
 pub fn run(s: &Synth) -> History {
 	let rt = tokio::runtime::Builder::new_multi_thread().worker_threads(s.threads.max(1)).enable_all().build().expect("runtime");
 	let hb = Heartbeat::start();
+	let stop_spin = Arc::new(AtomicBool::new(false));
+	let spinners: Vec<_> = (0..s.spinners)
+		.map(|_| {
+			let stop = stop_spin.clone();
+			std::thread::spawn(move || {
+				while !stop.load(Ordering::Relaxed) {
+					std::hint::spin_loop();
+				}
+			})
+		})
+		.collect();
 	let t0 = std::time::Instant::now();
 	let mut h = rt.block_on(drive(s));
 	h.wall = t0.elapsed();
+	stop_spin.store(true, Ordering::Relaxed);
+	for t in spinners {
+		t.join().ok();
+	}
 	h.hb_max_gap = hb.take_max_gap();
 	drop(hb);
 	rt.shutdown_timeout(Duration::from_millis(200));
@@ -562,6 +580,7 @@ pub fn gen_synth(rng: &mut Rng, with_errors: bool, small: bool) -> Synth {
 		threads: 2 + rng.usize(7),
 		err: ErrBehaviour::Ignore,
 		retain_hooks: false,
+		spinners: 0,
 		filter_delay_us: if rng.chance(1, 8) { 200 } else { 0 },
 		starve_with: None,
 		flood_producers: 1,
